@@ -4,6 +4,9 @@ pub mod engine;
 pub mod vocab;
 pub mod c01;
 pub mod c02;
+pub mod c05;
+pub mod c06;
+pub mod lines;
 
 use engine::{Ctx, Tier, Verdict, Worker};
 
@@ -13,6 +16,8 @@ pub fn run_property(id: &str, ctx: &Ctx) -> bool {
     match id {
         "C01" => c01::run(ctx),
         "C02" => c02::run(ctx),
+        "C05" => c05::run(ctx),
+        "C06" => c06::run(ctx),
         _ => return false,
     }
     true
@@ -22,6 +27,8 @@ pub fn replay_property(id: &str, w: &mut Worker, sub: &str, case: &serde_json::V
     match id {
         "C01" => c01::replay(w, sub, case),
         "C02" => c02::replay(w, sub, case),
+        "C05" => c05::replay(w, sub, case),
+        "C06" => c06::replay(w, sub, case),
         _ => None,
     }
 }
